@@ -108,9 +108,9 @@ Lemma class_roundtrip b : body_domain b = true -> class_from_data (cls_of b) (da
 Proof.
   destruct b as [w y|y|y|u| |rc sg|y|o|u s|u s rc sg|s| |]; cbn [body_domain]; intros Hd;
     unfold data_of; cbn [event_data cls_of class_from_data].
-  - apply andb_true_iff in Hd as [Hw Hy].
-    destruct (some_without_spec _ _ Hw) as [w' [-> Hnw]]. destruct (is_some_spec _ Hy) as [y' ->].
-    cbn [pystr]. rewrite (split1_first colon w' y' Hnw). reflexivity.
+  - destruct (some_without_spec _ _ Hd) as [w' [-> Hnw]]. destruct y as [y'|]; cbn [pystr].
+    + rewrite (split1_first colon w' y' Hnw). reflexivity.
+    + rewrite (split1_none colon w' Hnw). reflexivity.
   - destruct (is_some_spec _ Hd) as [y' ->]. reflexivity.
   - destruct (is_some_spec _ Hd) as [y' ->]. reflexivity.
   - destruct (is_some_spec _ Hd) as [y' ->]. reflexivity.
